@@ -403,12 +403,42 @@ def oracle_C15(r):
         if isinstance(text, bytes):
             text = text.decode('utf-8', 'replace')
         f['has_gen_pack_helpers'] = bool(re.search(r'\(\s*pb_c_file\s*\)\s*\.\s*gen_pack_helpers', text))
+        f['has_c_package'] = bool(re.search(r'\(\s*pb_c_file\s*\)\s*\.\s*c_package\s*=', text))
         for full, (gp, gi) in effective_helpers(f).items():
             if full in [m['full_name'] for m in f['messages'] if m['no_generate']]:
                 continue
             want_pack += 1 if gp else 0
             want_init += 1 if gi else 0
     syms = set(r['symbols'])
+    # ... under the documented names: <package, or c_package when the file sets it>__<message path>, each component
+    # CamelCase -> lower_case, components joined by a double underscore (computed from the schema, not read off the output)
+    def camel_lower(x):
+        o, was_upper = '', True
+        for ch in x:
+            if ch.isupper():
+                o += ('' if was_upper else '_') + ch.lower(); was_upper = True
+            else:
+                o += ch; was_upper = False
+        return o
+    def c_lower(f, full):
+        full = full.decode() if isinstance(full, bytes) else full
+        pkg = f['package'].decode() if isinstance(f['package'], bytes) else f['package']
+        cp = f['c_package'].decode() if isinstance(f['c_package'], bytes) else f['c_package']
+        if cp or f.get('has_c_package'):      # the option replaces the package even when it is set to the empty string
+            rest = full[len(pkg):] if pkg else '.' + full
+            full = cp + rest
+        return '__'.join(camel_lower(c) for c in full.split('.') if c)     # empty components are skipped (SplitStringUsing)
+    for f in fd:
+        if f['no_generate']:
+            continue
+        for full, (gp, gi) in effective_helpers(f).items():
+            if full in [m['full_name'] for m in f['messages'] if m['no_generate']]:
+                continue
+            base = c_lower(f, full)
+            missing = [suf for suf, need in (('__descriptor', True), ('__init', gi), ('__pack', gp), ('__unpack', gp), ('__free_unpacked', gp),
+                                             ('__get_packed_size', gp), ('__pack_to_buffer', gp)) if need and (base + suf) not in syms]
+            if missing and len(out) < 3:
+                out.append('message %s: the API is not provided under the documented name: no symbol %s%s' % (full.decode() if isinstance(full, bytes) else full, base, missing[0]))
     packs = [x[:-6] for x in syms if x.endswith('__pack')]
     groups_ok = [p for p in packs if all((p + suf) in syms for suf in ('__get_packed_size', '__pack_to_buffer', '__unpack', '__free_unpacked', '__descriptor'))]
     n_desc = len([x for x in syms if x.endswith('__descriptor')])
